@@ -1,6 +1,665 @@
-pub fn gen(_seed: u64, _thorough: bool) -> Vec<String> {
-    vec![]
+//! C06: stream-position contract of `dds::decode` / `dds::decode_rect`.
+//!
+//! case lines (see lean/DdsModel/DdsModel/Drv/C06.lean):
+//!   full <fmt> <ch> <pr> <w> <h> <pad> <lim> <pos0> <len> <fault|-> <clamp> <chunk>
+//!   rect <fmt> <ch> <pr> <W> <H> <x> <y> <w> <h> <pad> <lim> <pos0> <len> <fault|-> <clamp> <chunk>
+//! result: `<res> <final pos> lim=<limit used> <merged trace>`
+//!
+//! The reader is a synthetic stream (`FaultReader`) of `len` bytes positioned at `pos0`: optional hard
+//! error at absolute offset `fault` (bytes below it are readable; a `read` at it and a `seek` beyond it
+//! return `Err`; `t<k>` = the error is reported once and the reader works again afterwards, which is what
+//! exposes a swallowed error; `z<k>` = a read at `k` returns `Ok(0)` once although the stream goes on),
+//! `seek` either `Cursor`-like or clamping to the end, reads chunked according to `chunk`
+//! (`f` full, `1` one byte, `r<seed>` random short reads, `i<seed>` random short reads + `Interrupted`).
+//! Every successful mutation of the reader is logged; neighbours of the same kind are merged.
+//!
+//! Oracle (implementation alone, no model): success => position advanced by
+//! `PixelInfo::from(format).surface_bytes(size)`; non-I/O error => position unchanged; the reader
+//! returned an error (other than `Interrupted`) => the decode returned `Err(Io)`.
+use crate::common::*;
+use dds::*;
+use std::cell::RefCell;
+use std::collections::HashMap;
+use std::io::{Read, Seek, SeekFrom};
+
+macro_rules! formats {
+    ($($n:ident),* $(,)?) => { pub const FORMATS: &[(&str, Format)] = &[ $((stringify!($n), Format::$n)),* ]; };
 }
-pub fn run(_line: &str) -> Option<(String, Vec<String>)> {
-    None
+formats!(
+    R8G8B8_UNORM, B8G8R8_UNORM, R8G8B8A8_UNORM, R8G8B8A8_SNORM, B8G8R8A8_UNORM, B8G8R8X8_UNORM,
+    B5G6R5_UNORM, B5G5R5A1_UNORM, B4G4R4A4_UNORM, A4B4G4R4_UNORM, R8_SNORM, R8_UNORM, R8G8_UNORM,
+    R8G8_SNORM, A8_UNORM, R16_UNORM, R16_SNORM, R16G16_UNORM, R16G16_SNORM, R16G16B16A16_UNORM,
+    R16G16B16A16_SNORM, R10G10B10A2_UNORM, R11G11B10_FLOAT, R9G9B9E5_SHAREDEXP, R16_FLOAT,
+    R16G16_FLOAT, R16G16B16A16_FLOAT, R32_FLOAT, R32G32_FLOAT, R32G32B32_FLOAT, R32G32B32A32_FLOAT,
+    R10G10B10_XR_BIAS_A2_UNORM, AYUV, Y410, Y416, R1_UNORM, R8G8_B8G8_UNORM, G8R8_G8B8_UNORM, UYVY,
+    YUY2, Y210, Y216, NV12, P010, P016, BC1_UNORM, BC2_UNORM, BC2_UNORM_PREMULTIPLIED_ALPHA,
+    BC3_UNORM, BC3_UNORM_PREMULTIPLIED_ALPHA, BC4_UNORM, BC4_SNORM, BC5_UNORM, BC5_SNORM, BC6H_UF16,
+    BC6H_SF16, BC7_UNORM, ASTC_4X4_UNORM, ASTC_5X4_UNORM, ASTC_5X5_UNORM, ASTC_6X5_UNORM,
+    ASTC_6X6_UNORM, ASTC_8X5_UNORM, ASTC_8X6_UNORM, ASTC_8X8_UNORM, ASTC_10X5_UNORM,
+    ASTC_10X6_UNORM, ASTC_10X8_UNORM, ASTC_10X10_UNORM, ASTC_12X10_UNORM, ASTC_12X12_UNORM,
+    BC3_UNORM_RXGB, BC3_UNORM_NORMAL,
+);
+
+/// one or more representatives of every helper x unit-size combination
+pub const REPRESENTATIVES: &[&str] = &[
+    "R8_UNORM", "B5G6R5_UNORM", "R8G8B8_UNORM", "B8G8R8_UNORM", "R16G16B16A16_FLOAT", "R32G32B32_FLOAT",
+    "R32G32B32A32_FLOAT", "R1_UNORM", "YUY2", "Y210", "BC1_UNORM", "BC7_UNORM", "ASTC_5X4_UNORM",
+    "ASTC_10X6_UNORM", "ASTC_12X12_UNORM", "NV12", "P010",
+];
+
+pub fn format_by_name(s: &str) -> Option<Format> {
+    FORMATS.iter().find(|(n, _)| *n == s).map(|(_, f)| *f)
+}
+pub fn colour(ch: u32, pr: u32) -> Option<ColorFormat> {
+    let c = match ch {
+        0 => Channels::Grayscale,
+        1 => Channels::Alpha,
+        2 => Channels::Rgb,
+        3 => Channels::Rgba,
+        _ => return None,
+    };
+    let p = match pr {
+        0 => Precision::U8,
+        1 => Precision::U16,
+        2 => Precision::F32,
+        _ => return None,
+    };
+    Some(ColorFormat::new(c, p))
+}
+/// the colour for which `format` has a specialised whole-image decoder (if any), else its native colour
+pub fn natural_colour(name: &str) -> (u32, u32) {
+    match name {
+        "R8G8B8_UNORM" => (2, 0),
+        "R8G8B8A8_UNORM" | "R8G8B8A8_SNORM" | "B8G8R8A8_UNORM" => (3, 0),
+        "R8_SNORM" | "R8_UNORM" => (0, 0),
+        "A8_UNORM" => (1, 0),
+        "R16_UNORM" => (0, 1),
+        "R16G16B16A16_UNORM" => (3, 1),
+        "R32_FLOAT" => (0, 2),
+        "R32G32B32_FLOAT" => (2, 2),
+        "R32G32B32A32_FLOAT" => (3, 2),
+        _ => (3, 0),
+    }
+}
+
+#[derive(Clone, Copy, Debug)]
+pub enum Chunk {
+    Full,
+    One,
+    Rand,
+    Intr,
+}
+
+pub struct FaultReader {
+    pub pos: u64,
+    pub len: u64,
+    pub fault: Option<u64>,
+    pub clamp: bool,
+    pub chunk: Chunk,
+    pub rng: Rng,
+    /// (kind, signed amount): kind b'S' / b'R'; neighbours merged, zero amounts dropped
+    pub log: Vec<(u8, i128)>,
+    /// an `Err` other than `Interrupted` was returned to the caller
+    pub reported_error: bool,
+    /// `Ok(0)` was returned for a non-empty buffer
+    pub eof_hit: bool,
+    pub calls: u64,
+    /// do not keep a log (C07: the reader must not allocate while the heap is being measured)
+    pub quiet: bool,
+    /// the fault is reported once (by the first call that hits it) and is gone afterwards
+    pub transient: bool,
+    /// `Ok(0)` is returned once, by the first read at or beyond this offset, although the stream goes on
+    pub eof_once: Option<u64>,
+}
+impl FaultReader {
+    pub fn new(pos: u64, len: u64, fault: Option<u64>, clamp: bool, chunk: Chunk, seed: u64) -> Self {
+        FaultReader {
+            pos,
+            len,
+            fault,
+            clamp,
+            chunk,
+            rng: Rng::new(seed),
+            log: vec![],
+            reported_error: false,
+            eof_hit: false,
+            calls: 0,
+            quiet: false,
+            transient: false,
+            eof_once: None,
+        }
+    }
+    fn push(&mut self, kind: u8, amt: i128) {
+        if amt == 0 || self.quiet {
+            return;
+        }
+        if let Some(last) = self.log.last_mut() {
+            if last.0 == kind {
+                last.1 += amt;
+                return;
+            }
+        }
+        self.log.push((kind, amt));
+    }
+    pub fn trace(&self) -> String {
+        if self.log.is_empty() {
+            return "-".into();
+        }
+        self.log
+            .iter()
+            .filter(|(_, a)| *a != 0)
+            .map(|(k, a)| format!("{}{}", *k as char, a))
+            .collect::<Vec<_>>()
+            .join(".")
+    }
+    pub fn log_sum(&self) -> i128 {
+        self.log.iter().map(|(_, a)| *a).sum()
+    }
+    fn injected() -> std::io::Error {
+        std::io::Error::new(std::io::ErrorKind::Other, "injected fault")
+    }
+}
+impl Read for FaultReader {
+    fn read(&mut self, buf: &mut [u8]) -> std::io::Result<usize> {
+        self.calls += 1;
+        if buf.is_empty() {
+            return Ok(0);
+        }
+        if let Chunk::Intr = self.chunk {
+            if self.rng.chance(1, 3) {
+                return Err(std::io::Error::new(std::io::ErrorKind::Interrupted, "interrupted"));
+            }
+        }
+        if let Some(f) = self.fault {
+            if self.pos >= f {
+                self.reported_error = true;
+                if self.transient {
+                    self.fault = None;
+                }
+                return Err(Self::injected());
+            }
+        }
+        if let Some(z) = self.eof_once {
+            if self.pos >= z {
+                self.eof_once = None;
+                self.eof_hit = true;
+                return Ok(0);
+            }
+        }
+        let mut lim = self.len.min(self.fault.unwrap_or(u64::MAX));
+        if let Some(z) = self.eof_once {
+            lim = lim.min(z);
+        }
+        if self.pos >= lim {
+            self.eof_hit = true;
+            return Ok(0);
+        }
+        let want = (buf.len() as u64).min(lim - self.pos);
+        let k = match self.chunk {
+            Chunk::Full => want,
+            Chunk::One => 1,
+            Chunk::Rand | Chunk::Intr => match self.rng.below(6) {
+                0 => 1,
+                1 => 2.min(want),
+                2 => 7.min(want),
+                3 => (want / 2).max(1),
+                4 => want,
+                _ => 1 + self.rng.below(want),
+            },
+        } as usize;
+        let p = self.pos;
+        for (i, b) in buf[..k].iter_mut().enumerate() {
+            *b = ((p + i as u64).wrapping_mul(2654435761) >> 7) as u8;
+        }
+        self.pos += k as u64;
+        self.push(b'R', k as i128);
+        Ok(k)
+    }
+}
+impl Seek for FaultReader {
+    fn seek(&mut self, from: SeekFrom) -> std::io::Result<u64> {
+        self.calls += 1;
+        let target: i128 = match from {
+            SeekFrom::Start(n) => n as i128,
+            SeekFrom::Current(d) => self.pos as i128 + d as i128,
+            SeekFrom::End(d) => self.len as i128 + d as i128,
+        };
+        if target < 0 || target > u64::MAX as i128 {
+            self.reported_error = true;
+            return Err(std::io::Error::new(std::io::ErrorKind::InvalidInput, "seek out of range"));
+        }
+        let target = target as u64;
+        if let Some(f) = self.fault {
+            if target > f {
+                self.reported_error = true;
+                if self.transient {
+                    self.fault = None;
+                }
+                return Err(Self::injected());
+            }
+        }
+        let new = if self.clamp && target > self.len { self.len.max(self.pos) } else { target };
+        self.push(b'S', new as i128 - self.pos as i128);
+        self.pos = new;
+        Ok(new)
+    }
+    fn stream_position(&mut self) -> std::io::Result<u64> {
+        Ok(self.pos)
+    }
+}
+
+#[derive(Clone, Debug)]
+pub enum CallK {
+    Full { w: u32, h: u32 },
+    Rect { sw: u32, sh: u32, x: u32, y: u32, w: u32, h: u32 },
+}
+#[derive(Clone, Debug)]
+pub struct CallSpec {
+    pub name: String,
+    pub format: Format,
+    pub ch: u32,
+    pub pr: u32,
+    pub color: ColorFormat,
+    pub call: CallK,
+}
+impl CallSpec {
+    /// parses `<kind> <fmt> <ch> <pr> <dims…>`, returns the remaining tokens
+    pub fn parse<'a>(t: &[&'a str]) -> Option<(CallSpec, Vec<&'a str>)> {
+        let kind = *t.first()?;
+        let name = t.get(1)?.to_string();
+        let format = format_by_name(&name)?;
+        let ch = p_u32(t.get(2)?)?;
+        let pr = p_u32(t.get(3)?)?;
+        let color = colour(ch, pr)?;
+        let n = |i: usize| -> Option<u32> { p_u32(t.get(i)?) };
+        match kind {
+            "full" => Some((
+                CallSpec { name, format, ch, pr, color, call: CallK::Full { w: n(4)?, h: n(5)? } },
+                t.get(6..)?.to_vec(),
+            )),
+            "rect" => Some((
+                CallSpec {
+                    name,
+                    format,
+                    ch,
+                    pr,
+                    color,
+                    call: CallK::Rect { sw: n(4)?, sh: n(5)?, x: n(6)?, y: n(7)?, w: n(8)?, h: n(9)? },
+                },
+                t.get(10..)?.to_vec(),
+            )),
+            _ => None,
+        }
+    }
+    pub fn key(&self) -> String {
+        format!("{} {} {} {:?}", self.name, self.ch, self.pr, self.call)
+    }
+    pub fn surface(&self) -> Size {
+        match self.call {
+            CallK::Full { w, h } => Size::new(w, h),
+            CallK::Rect { sw, sh, .. } => Size::new(sw, sh),
+        }
+    }
+    pub fn image_size(&self) -> Size {
+        match self.call {
+            CallK::Full { w, h } => Size::new(w, h),
+            CallK::Rect { w, h, .. } => Size::new(w, h),
+        }
+    }
+    pub fn surface_bytes(&self) -> Option<u64> {
+        PixelInfo::from(self.format).surface_bytes(self.surface())
+    }
+    /// output buffer length and row pitch for padding `pad`
+    pub fn out_layout(&self, pad: usize) -> Option<(usize, usize)> {
+        let s = self.image_size();
+        let bpr = (s.width as usize).checked_mul(self.color.bytes_per_pixel() as usize)?;
+        let pitch = bpr.checked_add(pad)?;
+        let len = pitch.checked_mul(s.height as usize)?;
+        if len > (3usize << 30) {
+            return None;
+        }
+        Some((len, pitch))
+    }
+    /// runs the real decoder
+    pub fn decode(
+        &self,
+        reader: &mut FaultReader,
+        out: &mut [u8],
+        pitch: usize,
+        limit: usize,
+    ) -> Result<(), DecodingError> {
+        let mut options = DecodeOptions::default();
+        options.memory_limit = limit;
+        let s = self.image_size();
+        let image = match ImageViewMut::new_with(out, pitch, s, self.color) {
+            Some(i) => i,
+            None => panic!("harness: cannot build the output view"),
+        };
+        match self.call {
+            CallK::Full { .. } => dds::decode(reader, image, self.format, &options),
+            CallK::Rect { sw, sh, x, y, .. } => {
+                dds::decode_rect(reader, image, Offset::new(x, y), Size::new(sw, sh), self.format, &options)
+            }
+        }
+    }
+}
+
+pub fn res_name(r: &Result<(), DecodingError>) -> String {
+    match r {
+        Ok(()) => "ok".into(),
+        Err(DecodingError::Io(_)) => "io".into(),
+        Err(DecodingError::MemoryLimitExceeded) => "mem".into(),
+        Err(DecodingError::RectOutOfBounds) => "oob".into(),
+        Err(e) => format!("other:{e:?}").replace(' ', "_"),
+    }
+}
+
+thread_local! {
+    static NEED_CACHE: RefCell<HashMap<String, u64>> = RefCell::new(HashMap::new());
+}
+
+/// The implementation's observed need: the least `memory_limit` for which the call does not fail with
+/// `MemoryLimitExceeded`, found by galloping + bisection on the limit. The probes run on an empty
+/// stream (they stop at the first read), so they are cheap for large surfaces; that the threshold is
+/// the same on a real stream is checked by the oracles of C06 (`mem` only with an unmoved reader) and
+/// C07 (`mem` iff limit < observed need, on a full stream). 0 if the call fails the same way for every
+/// limit (validation errors).
+pub fn observed_need(spec: &CallSpec, out: &mut [u8], pitch: usize) -> u64 {
+    let key = spec.key();
+    if let Some(v) = NEED_CACHE.with(|c| c.borrow().get(&key).copied()) {
+        return v;
+    }
+    let mut probe = |limit: u64| -> bool {
+        let mut r = FaultReader::new(0, 0, None, false, Chunk::Full, 1);
+        let res = spec.decode(&mut r, out, pitch, limit as usize);
+        matches!(res, Err(DecodingError::MemoryLimitExceeded))
+    };
+    let v = if probe(u64::MAX) || !probe(0) {
+        0
+    } else {
+        // invariant: probe(lo) = mem, probe(hi) = not mem
+        let mut lo = 0u64;
+        let mut hi = 1u64;
+        while probe(hi) {
+            lo = hi;
+            hi = hi.saturating_mul(2);
+        }
+        while hi - lo > 1 {
+            let mid = lo + (hi - lo) / 2;
+            if probe(mid) {
+                lo = mid;
+            } else {
+                hi = mid;
+            }
+        }
+        hi
+    };
+    NEED_CACHE.with(|c| c.borrow_mut().insert(key, v));
+    v
+}
+
+pub fn resolve_limit(tok: &str, spec: &CallSpec, out: &mut [u8], pitch: usize) -> Option<u64> {
+    match tok {
+        "d" => Some(DecodeOptions::default().memory_limit as u64),
+        "n" => Some(observed_need(spec, out, pitch)),
+        "n-1" => Some(observed_need(spec, out, pitch).saturating_sub(1)),
+        _ => p_u64(tok),
+    }
+}
+
+pub fn run(line: &str) -> Option<(String, Vec<String>)> {
+    let t = toks(line);
+    let (spec, rest) = CallSpec::parse(&t)?;
+    if rest.len() != 7 {
+        return None;
+    }
+    let pad = p_usize(rest[0])?;
+    let pos0 = p_u64(rest[2])?;
+    let len = p_u64(rest[3])?;
+    let transient = rest[4].starts_with('t');
+    let eof_once = if rest[4].starts_with('z') { Some(p_u64(&rest[4][1..])?) } else { None };
+    let fault = if rest[4] == "-" || eof_once.is_some() { None } else { Some(p_u64(rest[4].trim_start_matches('t'))?) };
+    let clamp = p_u64(rest[5])? != 0;
+    let (chunk, seed) = match rest[6].as_bytes().first()? {
+        b'f' => (Chunk::Full, 1),
+        b'1' => (Chunk::One, 1),
+        b'r' => (Chunk::Rand, p_u64(&rest[6][1..])?),
+        b'i' => (Chunk::Intr, p_u64(&rest[6][1..])?),
+        _ => return None,
+    };
+    let (out_len, pitch) = spec.out_layout(pad)?;
+    let mut out = vec![0u8; out_len];
+    let limit = resolve_limit(rest[1], &spec, &mut out, pitch)?;
+
+    let mut reader = FaultReader::new(pos0, len, fault, clamp, chunk, seed);
+    reader.transient = transient;
+    reader.eof_once = eof_once;
+    let res = spec.decode(&mut reader, &mut out, pitch, limit as usize);
+    let name = res_name(&res);
+    let pos1 = reader.pos;
+
+    // ---- oracle: the three clauses of the property, on the implementation alone
+    let mut o = vec![];
+    match &res {
+        Ok(()) => match spec.surface_bytes() {
+            Some(b) => {
+                if pos1 as i128 - pos0 as i128 != b as i128 {
+                    o.push(format!(
+                        "success but the reader moved from {pos0} to {pos1}; the surface has {b} encoded bytes"
+                    ));
+                }
+            }
+            None => o.push("success for a surface whose byte length overflows u64".to_string()),
+        },
+        Err(DecodingError::Io(_)) => {}
+        Err(e) => {
+            if pos1 != pos0 {
+                o.push(format!("non-I/O error {e:?} but the reader moved from {pos0} to {pos1}"));
+            }
+        }
+    }
+    if reader.reported_error && !matches!(res, Err(DecodingError::Io(_))) {
+        o.push(format!("the reader returned an error but the decode returned {name}"));
+    }
+    if reader.log_sum() != pos1 as i128 - pos0 as i128 {
+        o.push("harness: log does not add up to the movement of the reader".to_string());
+    }
+    Some((format!("{name} {pos1} lim={limit} {}", reader.trace()), o))
+}
+
+// ------------------------------------------------------------------------------------------------
+// generator
+
+fn sb(name: &str, w: u32, h: u32) -> u64 {
+    PixelInfo::from(format_by_name(name).unwrap())
+        .surface_bytes(Size::new(w, h))
+        .unwrap_or(0)
+}
+
+/// the rects tried inside a `W×H` surface: (x, y, w, h)
+pub fn rects_of(sw: u32, sh: u32) -> Vec<(u32, u32, u32, u32)> {
+    let mut v = vec![(0, 0, sw, sh), (sw - 1, sh - 1, 1, 1), (0, 0, 1, 1)];
+    if sw >= 3 && sh >= 3 {
+        v.push((1, 1, sw - 2, sh - 2));
+    }
+    if sw >= 4 && sh >= 6 {
+        v.push((sw / 2, sh / 3, sw / 3 + 1, sh / 2));
+    }
+    v.push((0, sh / 2, sw, 1));
+    v.push((sw / 2, 0, 1, sh));
+    v.sort();
+    v.dedup();
+    v
+}
+
+fn call_str(name: &str, ch: u32, pr: u32, sw: u32, sh: u32, rect: Option<(u32, u32, u32, u32)>) -> String {
+    match rect {
+        None => format!("full {name} {ch} {pr} {sw} {sh}"),
+        Some((x, y, w, h)) => format!("rect {name} {ch} {pr} {sw} {sh} {x} {y} {w} {h}"),
+    }
+}
+
+pub fn gen(seed: u64, thorough: bool) -> Vec<String> {
+    let mut rng = Rng::new(seed);
+    let mut v: Vec<String> = vec![];
+    let chunks = |rng: &mut Rng| -> String {
+        match rng.below(4) {
+            0 => "f".to_string(),
+            1 => "1".to_string(),
+            2 => format!("r{}", rng.below(1000)),
+            _ => format!("i{}", rng.below(1000)),
+        }
+    };
+
+    // 1. every format: full + one rect, success with every limit class, each chunking
+    for (name, _) in FORMATS {
+        let (nc, np) = natural_colour(name);
+        for &(sw, sh) in &[(7u32, 5u32), (16, 12)] {
+            let b = sb(name, sw, sh);
+            for rect in [None, Some((1, 1, sw - 2, sh - 3)), Some((sw - 1, 0, 1, sh))] {
+                for lim in ["0", "n-1", "n", "d"] {
+                    let (ch, pr) = if lim == "d" { (nc, np) } else { (rng.below(4) as u32, rng.below(3) as u32) };
+                    let c = call_str(name, ch, pr, sw, sh, rect);
+                    let pos0 = *rng.pick(&[0u64, 3, 1000]);
+                    v.push(format!("{c} {} {lim} {pos0} {} - {} {}", if rng.chance(1, 3) { 5 } else { 0 },
+                        pos0 + b + rng.below(3), rng.below(2), chunks(&mut rng)));
+                }
+            }
+        }
+    }
+
+    // 2. representatives x small sizes x calls: hard error at every k, EOF at every k (both seek kinds)
+    let sizes: &[(u32, u32)] = if thorough {
+        &[(1, 1), (2, 3), (5, 4), (7, 9), (13, 6), (16, 16), (9, 21)]
+    } else {
+        &[(1, 1), (5, 4), (7, 9), (13, 6)]
+    };
+    for name in REPRESENTATIVES {
+        let (nc, np) = natural_colour(name);
+        for &(sw, sh) in sizes {
+            let b = sb(name, sw, sh);
+            let mut calls: Vec<Option<(u32, u32, u32, u32)>> = vec![None];
+            calls.extend(rects_of(sw, sh).into_iter().map(Some));
+            for rect in calls {
+                let kmax = if thorough { b } else { b.min(48) };
+                let mut ks: Vec<u64> = (0..=kmax).collect();
+                if b > kmax {
+                    for _ in 0..12 {
+                        ks.push(rng.range(kmax, b));
+                    }
+                    ks.push(b - 1);
+                    ks.push(b);
+                }
+                for k in ks {
+                    let (ch, pr) = if rng.chance(1, 2) { (nc, np) } else { (rng.below(4) as u32, rng.below(3) as u32) };
+                    let c = call_str(name, ch, pr, sw, sh, rect);
+                    let pos0 = *rng.pick(&[0u64, 11]);
+                    let lim = *rng.pick(&["d", "n", "d"]);
+                    // hard error at pos0+k
+                    v.push(format!("{c} 0 {lim} {pos0} {} {} {} {}", pos0 + b + 4, pos0 + k, rng.below(2), chunks(&mut rng)));
+                    // the same error reported only once (the reader recovers): a swallowed error ends in success
+                    v.push(format!("{c} 0 {lim} {pos0} {} t{} {} {}", pos0 + b + 4, pos0 + k, rng.below(2), chunks(&mut rng)));
+                    // `Ok(0)` once at pos0+k on an intact stream (a short read must not pass as success)
+                    v.push(format!("{c} 0 {lim} {pos0} {} z{} {} {}", pos0 + b + 4, pos0 + k, rng.below(2), chunks(&mut rng)));
+                    // EOF at pos0+k, Cursor-like and clamping seek
+                    v.push(format!("{c} 0 {lim} {pos0} {} - 0 {}", pos0 + k, chunks(&mut rng)));
+                    v.push(format!("{c} 0 {lim} {pos0} {} - 1 {}", pos0 + k, chunks(&mut rng)));
+                }
+            }
+        }
+    }
+
+    // 3. validation errors and shortcuts: rect out of bounds, empty rects, empty surfaces, overflow check
+    for name in ["R8_UNORM", "BC1_UNORM", "NV12", "ASTC_5X4_UNORM", "R32G32B32A32_FLOAT"] {
+        let b = sb(name, 8, 8);
+        for (x, y, w, h) in [(0u32, 0u32, 9u32, 8u32), (0, 0, 8, 9), (1, 0, 8, 8), (0, 1, 8, 8), (8, 8, 1, 1),
+            (4294967295, 0, 1, 1), (0, 4294967295, 1, 1), (7, 7, 2, 1)] {
+            v.push(format!("rect {name} 3 0 8 8 {x} {y} {w} {h} 0 d 5 {} - 0 f", 5 + b));
+            v.push(format!("rect {name} 2 1 8 8 {x} {y} {w} {h} 0 0 5 {} - 1 1", 5 + b));
+        }
+        // empty rects: skip the whole surface (also at the far corner, also out of bounds)
+        for (x, y, w, h) in [(0u32, 0u32, 0u32, 0u32), (8, 8, 0, 0), (3, 2, 0, 5), (3, 2, 5, 0), (9, 0, 0, 0), (0, 9, 0, 3)] {
+            for (len, clamp) in [(5 + b, 0), (5 + b - 1, 0), (5 + b - 1, 1), (5, 1)] {
+                v.push(format!("rect {name} 3 0 8 8 {x} {y} {w} {h} 0 0 5 {len} - {clamp} f"));
+            }
+            v.push(format!("rect {name} 3 0 8 8 {x} {y} {w} {h} 0 d 5 {} {} 0 f", 5 + b, 5 + b / 2));
+        }
+        // empty surfaces
+        v.push(format!("full {name} 3 0 0 0 0 0 9 20 - 0 f"));
+        v.push(format!("full {name} 3 0 0 7 0 0 9 20 9 0 f"));
+        v.push(format!("rect {name} 3 0 0 7 0 0 0 0 0 0 9 20 - 0 f"));
+        v.push(format!("rect {name} 3 0 0 0 0 0 0 0 0 d 9 9 9 1 f"));
+        v.push(format!("rect {name} 3 0 5 0 5 0 0 0 0 d 9 9 - 1 f"));
+        // check_likely_overflow: surfaces of more than isize::MAX bytes (rect decode only needs a small output)
+        v.push(format!("rect {name} 3 0 4294967295 4294967295 0 0 1 1 0 d 9 100 - 0 f"));
+        v.push(format!("rect {name} 3 0 4294967295 4294967295 5 5 0 0 0 d 9 100 - 0 f"));
+        v.push(format!("rect {name} 3 0 4294967295 4294967295 0 0 2 2 0 0 9 100 9 1 f"));
+        // huge but admissible surfaces: the skips are huge, the stream ends early
+        v.push(format!("rect {name} 3 0 2000000000 1000000000 1999999990 999999990 3 4 0 d 9 1000 - 0 f"));
+        v.push(format!("rect {name} 3 0 2000000000 1000000000 1999999990 999999990 3 4 0 d 9 1000 - 1 f"));
+        v.push(format!("rect {name} 3 0 2000000000 1000000000 0 0 3 4 0 d 9 100000 - 0 r5"));
+        v.push(format!("rect {name} 3 0 2000000000 1000000000 0 0 3 4 0 d 9 100000 50 1 r5"));
+        v.push(format!("rect {name} 3 0 3000000000 3000000000 7 7 0 0 0 d 9 100000 - 0 f"));
+        v.push(format!("rect {name} 3 0 3000000000 3000000000 7 7 0 0 0 d 9 100000 - 1 f"));
+    }
+
+    // 4. surfaces larger than the 64 KiB line buffer (several refills), padded output rows
+    let big: &[(u32, u32)] = if thorough { &[(300, 260), (4096, 3), (3, 4096), (70000, 2), (1025, 130)] } else { &[(300, 260), (4096, 3), (3, 1500), (70000, 2)] };
+    for name in REPRESENTATIVES {
+        let (nc, np) = natural_colour(name);
+        for &(sw, sh) in big {
+            let b = sb(name, sw, sh);
+            for rect in [None, Some((sw / 3, sh / 3, sw / 2, sh / 2)), Some((0, 1, sw, sh - 1))] {
+                let c = call_str(name, nc, np, sw, sh, rect);
+                v.push(format!("{c} 0 d 0 {} - 0 f", b));
+                v.push(format!("{c} 16 n 17 {} - 1 r{}", 17 + b + 1, rng.below(100)));
+                v.push(format!("{c} 0 n-1 17 {} - 1 f", 17 + b));
+                let k = rng.below(b);
+                v.push(format!("{c} 0 d 17 {} {} 0 i{}", 17 + b, 17 + k, rng.below(100)));
+                v.push(format!("{c} 0 d 17 {} t{} 0 r{}", 17 + b, 17 + rng.below(b), rng.below(100)));
+                v.push(format!("{c} 0 n 17 {} - {} f", 17 + rng.below(b), rng.below(2)));
+                v.push(format!("{c} 0 d 17 {} - {} f", 17 + b - 1, rng.below(2)));
+            }
+        }
+    }
+
+    // 5. PRNG cases over all formats
+    let n = if thorough { 60000 } else { 6000 };
+    for _ in 0..n {
+        let (name, _) = rng.pick(FORMATS);
+        let mw = if rng.chance(1, 8) { 200 } else { 24 };
+        let mh = if rng.chance(1, 8) { 200 } else { 24 };
+        let sw = 1 + rng.below(mw) as u32;
+        let sh = 1 + rng.below(mh) as u32;
+        let b = sb(name, sw, sh);
+        let rect = if rng.chance(2, 5) {
+            None
+        } else {
+            let x = rng.below(sw as u64) as u32;
+            let y = rng.below(sh as u64) as u32;
+            let w = 1 + rng.below((sw - x) as u64) as u32;
+            let h = 1 + rng.below((sh - y) as u64) as u32;
+            Some((x, y, w, h))
+        };
+        let (nc, np) = natural_colour(name);
+        let (ch, pr) = if rng.chance(1, 3) { (nc, np) } else { (rng.below(4) as u32, rng.below(3) as u32) };
+        let c = call_str(name, ch, pr, sw, sh, rect);
+        let pos0 = if rng.chance(1, 2) { 0 } else { rng.below(5000) };
+        let pad = if rng.chance(1, 4) { rng.below(9) } else { 0 };
+        let lim = match rng.below(8) {
+            0 => "0".to_string(),
+            1 => "n-1".to_string(),
+            2 | 3 => "n".to_string(),
+            4 => format!("{}", rng.below(70000)),
+            _ => "d".to_string(),
+        };
+        let (len, fault) = match rng.below(5) {
+            0 => (pos0 + b + rng.below(4), "-".to_string()),
+            1 => (pos0 + b + rng.below(4), format!("{}", pos0 + rng.below(b + 1))),
+            2 => (pos0 + b + rng.below(4), format!("{}{}", if rng.chance(1, 2) { "t" } else { "z" }, pos0 + rng.below(b + 1))),
+            _ => (pos0 + rng.below(b + 1), "-".to_string()),
+        };
+        v.push(format!("{c} {pad} {lim} {pos0} {len} {fault} {} {}", rng.below(2), chunks(&mut rng)));
+    }
+    v
 }
